@@ -40,8 +40,8 @@ def main() -> None:
         obs = eng.verify(c)
         from .solve import reset_budget
         reset_budget(6)
-        for ob in obs:
-            discharge(ob)
+        from .solve import discharge_all
+        discharge_all(obs)
         n = len(obs)
         ok = sum(1 for o in obs if o.status == "proved")
         print(f"{c.key}: {ok}/{n} proved, paths={eng.func_stats[c.key].get('paths')} in {time.time()-t0:.2f}s")
